@@ -2163,6 +2163,29 @@ namespace bxdecay0 {
           }
           // Compute daughter level in MeV :
           bb_params_.Edlevel = bb_params_.levelE / 1000.;
+          {
+            // An energy sum window must overlap the available energy range [0, e0]: otherwise the sampling of the
+            // lepton energies can never succeed (endless loop, or energies above the Q-value).
+            const int mbb = bb_params_.modebb;
+            if (mbb == 4 || mbb == 5 || mbb == 6 || mbb == 8 || mbb == 10 || mbb == 13 || mbb == 14 || mbb == 15 || mbb == 16
+                || mbb == 19) {
+              double e0w = bb_params_.Qbb - bb_params_.Edlevel;
+              if (bb_params_.Zdbb < 0.) {
+                e0w -= 4. * emass;
+              }
+              if (mbb == 10) {
+                e0w = bb_params_.Qbb - bb_params_.Edlevel - bb_params_.EK - 2. * emass;
+              }
+              if (bb_params_.ebb1 >= e0w || bb_params_.ebb1 >= bb_params_.ebb2 || bb_params_.ebb2 <= 0.) {
+                std::cerr << "[error] "
+                          << "bxdecay0::genbbsub: "
+                          << "Energy range [" << bb_params_.ebb1 << "," << bb_params_.ebb2
+                          << "] MeV does not overlap the available energy range [0," << e0w << "] MeV !\n";
+                ier_ = 1;
+                return;
+              }
+            }
+          }
           if (trace) {
             if (trace) {
               std::cerr << "[debug] bxdecay0::genbbsub: DBD parameters (before init):" << std::endl;
